@@ -234,6 +234,11 @@ static void inc_lexically_normal (const char* abs_base, const char *name, char *
   /* process .. and . in the include header name */
   while (*from)
     {
+      if (*from == '/')		/* redundant separator, e.g. after "./" or "../" */
+        {
+          from++;
+          continue;
+        }
       if (!strncmp (from, "../", 3) || !strcmp (from, ".."))	/* also a final ".." component */
         {
           if (*dest == 0)	/* including from above mudlib is NOT allowed */
